@@ -826,7 +826,7 @@ func (fc *fnCtx) sortedByLess(st *state, c *ssa.CallCommon, ins ssa.Instruction,
 				panic(rec)
 			}
 		}()
-		ev := &evalCtx{cur: st, old: st, bind: mk(iT, jT)}
+		ev := &evalCtx{cur: st, old: st, bind: mk(iT, jT), preferBind: true}
 		for _, cl := range clauses {
 			out = append(out, fc.evalFormula(cl.f, ev))
 		}
